@@ -23,33 +23,33 @@ P = {
  "C04": (True, "Coq proof: set membership = history scan, NoDup, size; + differential correspondence",
          "Theorems (Properties/C04.v) over all histories of variadic Add/Remove/Clear for the three set models.", "4 C04"),
  "C05": (True, "Coq proof: LIFO/FIFO refinement and ring-buffer invariant (modular arithmetic) for all capacities + exact-state correspondence",
-         "Theorems (Properties/C05.v): stacks/queues refine abstract stack/queue; ring invariant and bounded-FIFO refinement for every c >= 1; tie compares raw ring, start, end, full, size.", "4 C05"),
+         "Theorems (Properties/C05.v): stacks/queues refine abstract stack/queue; ring invariant and bounded-FIFO refinement for every c >= 1; tie compares raw ring, start, end, full, size after every operation. In addition the circular buffer's Go source is re-translated to Gallina on every run (srcgen) and each regenerated method is proved equal to the model's.", "0.2, 4 C05"),
  "C06": (True, "Coq proof: heap-order invariant and multiset preservation by induction over histories + raw-array correspondence",
          "Theorems (Properties/C06.v): heap_ok after every history (single/bulk push, pop, clear, load), min property, bag preservation, Values permutation.", "4 C06"),
  "C07": (True, "Coq proof: red-black / AVL / B-tree shape invariants, height and comparator-call bounds + exact-structure and exact-cost correspondence",
-         "Theorems (Properties/C07*.v): invariants preserved by Put/Remove for all SWO comparators and orders, height bounds (2 log2(n+1), Fibonacci/1.45 log2, ceil(m/2) powers), comparator-call bounds; tie compares the complete exported structure and the measured comparator-call count of every operation.", "4 C07"),
+         "Theorems (Properties/C07*.v): invariants preserved by Put/Remove for all SWO comparators and orders, height bounds (2 log2(n+1), Fibonacci/1.45 log2, ceil(m/2) powers), comparator-call bounds; tie compares the complete exported structure and the measured comparator-call count of every operation; an extracted oracle (proved silent on every model run, C07_oracle.v) evaluates the invariants and the exact integer forms of the numeric bounds on the implementation's own output to decide between a failing input and a broken tie.", "0.2, 4 C07"),
  "C08": (True, "Coq proof: iterator models refine an integer cursor over -1..n (simulation) + correspondence on call scripts",
-         "Theorems (Properties/C08*.v): every iterator model (index, linked, ring, heap, RB/AVL/B-tree path iterators) simulates the cursor for every call sequence.", "4 C08"),
+         "Theorems (Properties/C08*.v): every iterator model (index, linked, ring, heap, RB/AVL/B-tree path iterators) simulates the cursor for every call sequence on every reachable state of all 18 iterator types. The index iterators' Go sources are re-translated to Gallina on every run (srcgen) and proved equal to the model's iterator functions.", "0.2, 4 C08"),
  "C09": (True, "Coq proof: insertion-order ('birth order') characterisation over all histories + correspondence",
          "Theorems (Properties/C09.v): order of LinkedHashMap/Set keys = order of births in the history; present keys never move; removal is a filter.", "4 C09"),
  "C10": (True, "Coq proof: mutual-inverse invariant of forward/inverse maps over all histories + correspondence with inverse-map hook",
-         "Theorems (Properties/C10.v).", "4 C10"),
+         "Theorems (Properties/C10.v, 25, closed under the global context): for every history of both bidirectional kinds and every comparator pair, forward and inverse dictionaries are exact mutual inverses; Get(k)=v iff GetKey(v)=k (modulo the comparators' equivalence); injectivity both ways; the exact pair set after Put and Remove; Size = |Keys| = |Values|; a history-only specification of all lookups (no displaced pair is ever returned). Tie: Get/GetKey for every probe, keys, values, size and the inverse-map hook after every operation; an auxiliary load probe checks one-to-one-ness after loading documents with colliding values.", "0.1, 4 C10"),
  "C11": (True, "Coq proof: from_json (to_json s) round-trip on the machine + correspondence using encoding/json as oracle",
-         "Theorems (Properties/C11.v).", "4 C11"),
+         "Theorems (Properties/C11.v, 19): for all 21 kinds and every reachable state, from_json of the decoded to_json into a fresh container succeeds and yields an equivalent container (the same state for 14 kinds; equal contents, iteration order and observers for the trees; the same logical queue for the ring), and any continuation gives the same answers (same Pop/Dequeue sequence). Tie: the decoded ToJSON document vs the model after every operation, json.Valid / Marshal=ToJSON / reload bits computed with encoding/json; strprobe repeats the round trip on string-instantiated containers (escapes, control characters, non-BMP runes, values equal to keys).", "0.1, 4 C11"),
  "C12": (True, "Coq proof: load = clear + inserts (reachable), atomic on error + correspondence on valid and malformed streams",
-         "Theorems (Properties/C12.v).", "4 C12"),
+         "Theorems (Properties/C12.v, 18): a failing load leaves the state unchanged; a successful one depends only on the document (no prior element survives); what it denotes per kind (sequence, deduplicated set, sorted map, last-capacity ring, heapified permutation, one-to-one bidi map); the loaded state is a run of a FromJSON-free history, so every other theorem applies to all continuations; null, [] and {} give the initial state. Tie: valid and malformed document streams applied to containers with prior content, full observation before/after; strprobe adds string documents, tying members and atomicity on wrongly typed elements.", "0.1, 4 C12"),
  "C13": (True, "Coq proof: membership laws of Intersection/Union/Difference + correspondence with independence probes",
-         "Theorems (Properties/C13.v).", "4 C13"),
+         "Theorems (Properties/C13.v, 18): for all pairs of reachable sets of the three kinds, Intersection/Union/Difference contain exactly the members in both / either / only the first (modulo the comparator's equivalence for TreeSet), without duplicates, ordered by the operands' comparator; operands unchanged; same-object, empty-operand and either-size cases. Tie: result members and both operands before/after, plus two-way independence probes (in-place writes to the result, later mutation of an operand).", "0.1, 4 C13"),
  "C14": (True, "Coq proof: enumerable functions = list functions over the iterator sequence + correspondence with callback logs",
-         "Theorems (Properties/C14.v).", "4 C14"),
+         "Theorems (Properties/C14.v, 16): on every reachable state of the 8 enumerable kinds Each/Any/All/Find equal the list functions over the iterator sequence; Select keeps exactly the matching elements in order; Map equals repeated insertion of the mapped elements into a fresh container of the same configuration; the receiver is returned unchanged. Tie: callback logs, results, receiver fingerprint, independence probes.", "0.1, 4 C14"),
  "C15": (True, "Coq proof: size/empty/values/keys invariants for all 21 kinds, Clear = init + correspondence",
-         "Theorems (Properties/C15.v).", "4 C15"),
+         "Theorems (Properties/C15.v, 14): one invariant for all 21 kinds over every history: Size >= 0, Size = len(Values) (= len(Keys) for key-value kinds), Empty iff Size = 0; Clear yields exactly the initial state (state equality including ring indices and configuration), hence any continuation behaves as on a fresh container; observers return their state. Tie: size/empty/values/keys after every operation of histories that include loads, Clear at random points; String() prefix and the observer-fingerprint bit are checked dynamically.", "0.1, 4 C15"),
  "C16": (True, "Coq proof: generic independence theorems + finite obligations re-proved over an effect table regenerated from the Go source (go/ssa) + aliasing probes",
-         "Theorems (Properties/C16.v, Effects/*.v).", "4 C16"),
+         "Theorems (Properties/C16.v): generic independence of an uncaptured fresh block from the container and back (heap model with slice identities), and finite obligations re-proved by computation over the effect table REGENERATED from /repo by a go/ssa translator on every run: every Values/Keys/GetSortedValues* returns only fresh references, no variadic entry point captures an argument slice; GetSortedValues on the machine is the sorted permutation with the state unchanged. Dynamic counterpart: probe C16 (overwrite returned slices including spare capacity, argument slices with spare capacity, deep fingerprints).", "0.1, 3.4, 4 C16"),
  "C17": (True, "Coq proof: machine never crashes (nil-freedom of tree algorithms) + silence obligation over the regenerated effect table + reflection-driven panic/output probe",
-         "Theorems (Properties/C17.v, Effects/*.v).", "4 C17"),
+         "Theorems (Properties/C17_model.v, C17.v): no history of any kind reaches the crash state and no step returns a crash (nil-freedom of the red-black, AVL and B-tree algorithms; pointer-level nil-freedom of both linked lists in C03_cells.v), the two constructor preconditions being the only crashes; over the regenerated effect table no exported operation reaches an I/O primitive or an unknown callee. Dynamic counterpart: reflection-driven probe over every exported method with hostile arguments under recover, watchdog and fd capture.", "0.1, 3.4, 4 C17"),
  "C18": (True, "Coq proof: reader non-interference theorem + purity obligation over the regenerated effect table + race-detector probe",
-         "Theorems (Properties/C18.v, Effects/*.v).", "4 C18"),
+         "Theorems (Properties/C18.v): readers_noninterfere for every interleaving of any number of threads (no conflicting access, shared store unchanged, every read sees its sequential value) and, over the effect table regenerated from /repo on every run, every read-only operation (466 functions) writes no non-fresh memory, does no I/O and touches iterator state only in iterators it created. Dynamic counterpart: probe C18 built with -race (8 goroutines over all read-only methods found by reflection) plus a reflect/unsafe deep dump of unexported fields before/after every read-only call.", "0.1, 3.4, 4 C18"),
 }
 
 HOLD = set()     # waiting for the dynamic probes (/verif/probe) before being registered
